@@ -74,6 +74,7 @@ const (
 
 func genRemedy(r *prng.R, id int, base int64, floaty bool) rem {
 	m := rem{id: id}
+	huge := false
 	m.name = names[id%3]
 	if r.Chance(15) {
 		m.name = prng.Pick(r, names)
@@ -86,15 +87,33 @@ func genRemedy(r *prng.R, id int, base int64, floaty bool) rem {
 		m.allowed = -1
 	case 2:
 		m.allowed = prng.Pick(r, []int64{7, 10, 100})
+	case 3:
+		if !floaty && r.Chance(40) {
+			// huge allowances (scaledCeil must not overflow): around 2^63/1e8, 1e11, 1e15, near 2^63
+			m.allowed = prng.Pick(r, []int64{92233720368, 92233720369, 100000000000, 184467440737, 1000000000000000,
+				4611686018427387904, 9000000000000000000, 9223372036854775807})
+			huge = true
+		}
 	}
 	m.win = prng.Pick(r, wins)
 	m.status = prng.Pick(r, statuses)
-	if r.Chance(25) {
+	if !huge && r.Chance(25) {
 		m.spill = true
 		day := time.Unix(base, 0).UTC().Day()
 		m.renew = prng.Pick(r, []int{day, day + 1, 0, 1, 15, 31})
 	}
-	if r.Chance(60) {
+	if huge {
+		exact100 := []string{"25/1", "50/1", "75/1", "100/1", "0/1", "125/10", "7/1", "999999/1000000"}
+		if r.Chance(60) {
+			m.alloc = true
+			m.hdr = prng.Pick(r, hdrNames)
+			m.dflt = prng.Pick(r, defaults)
+			m.dpct = prng.Pick(r, exact100)
+			for i, n := 0, r.Range(0, 3); i < n; i++ {
+				m.groups = append(m.groups, [2]string{prng.Pick(r, hdrValues), prng.Pick(r, exact100)})
+			}
+		}
+	} else if r.Chance(60) {
 		m.alloc = true
 		m.hdr = prng.Pick(r, hdrNames)
 		m.dflt = prng.Pick(r, defaults)
@@ -281,6 +300,12 @@ func genCase(r *prng.R, mode int) []string {
 			// reconfigure keeping the window size: allowed / allocation / status change
 			m := genRemedy(r, rs[i].id, base, floaty)
 			m.name, m.win, m.spill, m.renew = rs[i].name, rs[i].win, rs[i].spill, rs[i].renew
+			if m.allowed < 1_000_000 && rs[i].allowed < 1_000_000 && r.Chance(50) {
+				m.spill = !m.spill // spill-over switched on/off by the reconfiguration
+			}
+			if m.allowed >= 1_000_000 {
+				m.spill = false
+			}
 			rs[i] = m
 			ops = append(ops, m.line())
 		}
